@@ -102,11 +102,11 @@ def run(tier):
                 res.fail(["C04"], "volume:alloc-not-free", "allocated in-use clusters %s" % cl[:5],
                          {"fat_type": ty, "fat": fat, "hint": hint, "count": count, "n": nclus})
         except Exception as e:  # noqa
-            impl = "err " + exc_class(e)
+            impl = "err %s hint=%d fat=%d" % (exc_class(e), pf.first_free_cluster, fnv(pf.fat))
         finally:
             pf.initialized = False
         ask("alloc %d %d %d %d %d %d %d %s" % (ty, hint, nclus, tot if tot < 65536 else 0, 0 if tot < 65536 else tot, fds, spc, natlist(fat)),
-            impl, "alloc:%d:%s:%s" % (ty, style, impl.split(" ")[0] + impl.split(" ")[1][:3]), "alloc", ["C04", "C08", "C01"])
+            impl, "alloc:%d:%s:%s" % (ty, style, impl.split(" ")[0] + impl.split(" ")[1][:3]), "alloc", ["C04", "C08", "C01", "C09"])
         # chain follower
         start = r.choice([0, 1, 2, r.randrange(n + 2), n, n + 1])
         pf, _, _ = mk_pf(ty, fat, hint, count, spc)
